@@ -5,15 +5,9 @@
 -/
 import TlsModel.Props.C04
 import TlsModel.Ciphers
+import TlsModel.Accessors
 namespace Tls
 variable {β : Type} [ByteLike β]
-
-/-- `rand_time()`: `random.get(..4)` as big-endian u32, 0 when fewer than four bytes -/
-def randTime (random : List β) : Nat := if 4 ≤ random.length then beVal (random.take 4) else 0
-/-- `rand_bytes()`: `random.get(4..)` or empty -/
-def randBytes (random : List β) : List β := if 4 ≤ random.length then random.drop 4 else []
-/-- `cipher_suites()` / `get_ciphers()`: each advertised id, in order, to its registry entry or None -/
-def cipherSuites (table : List CipherRow) (ciphers : List Nat) : List (Option CipherRow) := ciphers.map (fromId table)
 
 theorem randTime_eq (a b c d : β) (rest : List β) :
     randTime (a :: b :: c :: d :: rest) = ((toNat a * 256 + toNat b) * 256 + toNat c) * 256 + toNat d := by
